@@ -133,6 +133,32 @@ CLAIMED = {
               "generator's fixed list'), transcribed. The inputs are the D-sets produced by the D-set generator, whose "
               "completeness up to the same size is the C06 check. Trusted base: rustc (release), z3 4.8.12 / cvc5 1.0, "
               "the encoding in engine/gen7.py.")),
+    "C09": dict(
+        design_ref="DESIGN.md §4 C09",
+        engine="gen9",
+        quick_cmd="python3 engine/gen9.py check --tier quick",
+        thorough_cmd="python3 engine/gen9.py check --tier thorough",
+        replay="python3 engine/gen9.py replay {path}",
+        technique=("fundamental_group() executed from the current tree on every 2D symbol of a bounded universe; 'the "
+                   "presentation with its edge words presents the orbifold group' decided by SMT (z3 QF_BV, every 13th "
+                   "verdict re-run with cvc5) through permutation representations of small degree: unsat(an action of "
+                   "the presentation whose induced sheet map is not a covering of the symbol), unsat(a covering of the "
+                   "symbol that the edge words do not reproduce or whose permutations violate a relator), with a "
+                   "satisfiability guard against vacuity; models re-evaluated exactly against a fresh native run"),
+        text=("PARTIAL. For every 2D symbol the D-symbol generator yields on D-sets of at most 3 (thorough: 4) chambers — "
+              "98 (236) symbols — the real fundamental_group is run and its relators, generator edges and edge words are "
+              "turned into constants. For every degree s <= 3 the solver decides, over ALL tuples of symbolic "
+              "permutations and ALL symbolic sheet maps, that the permutation representations of the presentation are "
+              "exactly the s-sheeted coverings of the symbol (sheets transported along the spanning tree), related "
+              "through the edge words: this makes the property's own proposal — equal numbers of subgroup classes of "
+              "each small index as the orbifold group — exact, without using the crate's coset enumeration. Ground: "
+              "every generator on exactly one facet pair, the two sides of a facet carry mutually inverse words, all "
+              "words and relators freely reduced, cones well formed. NOT decided: 3D symbols, degrees above 3, the "
+              "exact cone list, finite orders."),
+        note=("Base symbols are enumerated (checked output of the generators of C06 / C07), not symbolic; the solver's "
+              "for-all is over permutation tuples and sheet maps. Agreement on permutation representations of degree "
+              "<= 3 does not prove isomorphism of the groups; it is the bounded form of the property's subgroup-count "
+              "clause. Trusted base: rustc (release), z3 4.8.12 / cvc5 1.0, the encoding in engine/gen9.py.")),
     "C10": dict(
         design_ref="DESIGN.md §4 C10",
         text=("Bounded model checking of every FreeWord operation (new/from/empty, six product forms, *=, inverse, "
@@ -153,19 +179,19 @@ CLAIMED = {
                    "the constants; 'exactly [G:H] rows' is decided by SMT (z3 QF_BV, re-run with cvc5): "
                    "unsat(exists a transitive action on more points that satisfies the relators with the subgroup "
                    "fixing a point), for every size up to the stated bound; sat models are replayed natively"),
-        text=("PARTIAL. For 20 (thorough: 33) input-free configurations — dihedral, cyclic, free abelian, free, "
-              "triangle and surface groups with the subgroup patterns trivial / whole group / <g1> / <g1 g2> / "
-              "<g^m> / <g1 g2 g1, g2> — the real coset_table and coset_representative built from the current tree are "
+        text=("PARTIAL. For 35 (thorough: 55) input-free configurations — dihedral, cyclic, finite and free abelian, free, "
+              "triangle and surface groups with subgroup patterns such as trivial / whole group / <g1> / <g2> / <g1 g2> / "
+              "<g^m> / <g1 g2 g1, g2> / <g2^3> / <[g1,g2]> — the real coset_table and coset_representative built from the current tree are "
               "run; every generator acts as a permutation whose inverse is the action of the inverse generator, the "
               "action is transitive, every relator traced from every row returns, every subgroup generator traced "
               "from row 0 returns to row 0, every representative traced from row 0 ends in its row (ground checks), "
               "and the table has exactly [G:H] rows: a valid table has at most [G:H] rows, and the solver shows that "
-              "no transitive action on more points (up to 9, thorough 10) satisfies the relators with the subgroup "
+              "no transitive action on more points (up to 8, thorough 9) satisfies the relators with the subgroup "
               "fixing a point. NOT decided: arbitrary presentations and subgroup words."),
         note=("coset_table's code is never modelled: for an input-free configuration its execution is a plain run; the "
               "solver's part is the index. Trusted base: rustc (release profile), z3 4.8.12 / cvc5 1.0, the QF_BV "
-              "encoding in engine/gen12.py + gen11.py, native/verif_c11.rs. Three defects found by this check were "
-              "repaired in /repo (fix: commits e3c92cb, b94bde8, f87fc90).")),
+              "encoding in engine/gen12.py + gen11.py, native/verif_c11.rs. Four defects found by this check were "
+              "repaired in /repo (fix: commits e3c92cb, b94bde8, f87fc90, 667abfa).")),
     "C12": dict(
         design_ref="DESIGN.md §4 C12",
         engine="gen12",
@@ -230,7 +256,6 @@ CLAIMED = {
 NOT_APPLICABLE = {
     "C03": "canonical form runs through Traversal (HashSet + BTreeMap + VecDeque); symbolic execution does not finish for 2 chambers",
     "C08": "curvature/orbifold_symbol go through Traversal, oriented_cover, HashSet and String",
-    "C09": "Boundary is a HashMap, words live in BTreeMap/BTreeSet; oracle is a group isomorphism, not a bounded first-order statement",
     "C13": "HashMap/HashSet keyed by Vec<usize>; inputs are C11/C12 objects; oracle is a group isomorphism",
     "C15": "whole pipeline (covers, coset tables, stabiliser, invariants) on symbols with tens of chambers",
     "C16": "whole pipeline on symbols with hundreds of chambers; HashSet iteration order inside network_cut",
@@ -300,6 +325,12 @@ def main():
             "kind_free_text": "native run of the D-symbol generator on every 2D D-set up to the size bound + ground checks with "
                               "exact rationals + SMT-LIB (QF_LIRA) completeness queries over all branching assignments, z3 "
                               "with cvc5 cross-check",
+        }, {
+            "name": "gen9",
+            "path": "engine/gen9.py",
+            "serves_properties": ["C09"],
+            "kind_free_text": "native run of fundamental_group on every 2D symbol of a bounded universe + SMT-LIB (QF_BV) "
+                              "queries relating permutation representations of the presentation to coverings of the symbol",
         }, {
             "name": "gen11",
             "path": "engine/gen11.py",
